@@ -409,6 +409,37 @@ def run_family(ctx, prop, gen_args, describe):
             ctx.known("%s site=%s class=%s (%d cases in this run)" % (fid, f.get("site", "?"), f.get("class", "?"), excused.get(fid, 0)))
         else:
             ctx.notes.append("finding %s no longer reproduces" % fid)
+    # FILTER pairs (FILTER is not in the Coq model): a filter on a binding of a non-optional clause applies to that clause only,
+    # so the filtered statement returns exactly the rows of the unfiltered one (which IS modelled) whose value of that binding
+    # is a temporal / immutable predicate - whatever clauses, OPTIONAL or not, follow
+    pairs = {}
+    for r in rows:
+        if r.get("kind") == "filter-pair":
+            pairs.setdefault(r["pair"], {})[r["role"]] = r
+    npairs = 0
+    for pid, pr in sorted(pairs.items()):
+        a, b = pr.get("plain"), pr.get("filtered")
+        if not a or not b or a["result"]["kind"] != "ok":
+            continue
+        npairs += 1
+        want_temporal = b["filter_fn"] == "isTemporal"
+        ok = b["result"]["kind"] == "ok" and a["result"]["outs"] == b["result"]["outs"]
+        if ok:
+            i = a["result"]["outs"].index(b["filter_binding"])
+
+            def keep(row):
+                c = row[i]
+                return "p" in c and ((c["p"]["a"] is not None) == want_temporal)
+            exp = sorted(json.dumps(row, sort_keys=True) for row in a["result"]["rows"] if keep(row))
+            got = sorted(json.dumps(row, sort_keys=True) for row in b["result"]["rows"])
+            ok = exp == got
+        if not ok:
+            nviol += 1
+            if nviol <= 5:
+                ctx.violation({"kind": "filter-leaks-into-other-clauses", "plain_query": a["query"], "filtered_query": b["query"],
+                               "graph_texts": a["graph_texts"], "plain_result": a["result"], "filtered_result": b["result"],
+                               "explain": "the filtered result is not the unfiltered result restricted to rows whose filtered binding has the required kind"})
+    ctx.cov["filter_pairs_checked"] = npairs
     # generator health and coverage
     okc = [r for r in rows if r["result"]["kind"] == "ok"]
     empty = sum(1 for r in okc if not r["result"]["rows"])
